@@ -39,6 +39,16 @@ TEXT = {
             'DESIGN.md 3.17'),
 }
 
+TEXT['C13'] = (
+    'Seeded search over histories on Nasa / Nasa9 / Shomate species (phases g, gas, G, s, S, None) built from '
+    'caller-owned model lists that several constructors may share: construct, attach, reorder, copy / deepcopy, '
+    '1-4 to_dict/from_dict or encoder/hook cycles, evaluate Cp/H/S/G at scalar T or arrays of 1-50 with P and '
+    'per-species coverage blocks. After every step every species is judged: number of pressure adjustments equals what '
+    'its owner attached or enabled (structurally and as S(7 bar)-S(1 bar) = -n ln 7), number of coverage models '
+    'unchanged; every evaluation equals the bare polynomial (twin species without models) plus the sum of each attached '
+    'model under an independent keyword router, element-wise for arrays. Sampling, not enumeration.',
+    'DESIGN.md 3.13')
+
 TECHNIQUE = 'deterministic simulation with fault injection (seeded schedule/history search, reference-model oracle, ddmin replay)'
 
 
